@@ -1,4 +1,5 @@
 import EupsModel.Lemmas.RemoveClosure
+import EupsModel.Lemmas.RemoveHead
 import EupsModel.Lemmas.DepsTotal
 /-! C14 — remove deletes exactly what was asked and never something still needed.
 Property theorems only (model: `Model/Remove.lean`, lemmas: `Lemmas/Remove.lean`). -/
@@ -109,6 +110,36 @@ theorem C14_never_still_needed_listing (s' : State) (R : List Prod)
     have := C14_never_still_needed s name ver recursive dn sb s' R h p hp u hu'
     rw [← h1, ← h2]; exact this
 
+/-- **A user declared in between is seen** (histories on one `Eups` object: the model of `remove` is a function of
+the current state, it keeps no who-uses-what information from earlier commands).  If a product `d` is declared
+(`declare s d`) whose dependency listing holds `name ver`, then a checked, unforced `remove name ver` afterwards does
+not succeed — whatever was computed, refused or removed before: by `C14_refuses` it leaves the state as it is. -/
+theorem C14_not_removed_after_declare (d : Decl) (l : List Entry)
+    (hl : getDependentProducts (declare s d).db (declare s d).db.fuel ⟨d.name, some d.ver, true⟩ true false = .ok l)
+    (e : Entry) (he : e ∈ l) (hn : e.prod.name = name) (hv : e.prod.ver = some ver)
+    (hne : ¬ (d.name = name ∧ d.ver = ver)) (hdn : dn ≠ some name) :
+    (remove (declare s d) name ver recursive true false dn).1 ≠ .ok := by
+  intro hok
+  generalize hr : remove (declare s d) name ver recursive true false dn = r at hok
+  obtain ⟨o, s', R⟩ := r
+  simp only at hok
+  subst hok
+  have hmem : (⟨name, some ver, true⟩ : Prod) ∈ R := by
+    unfold remove at hr
+    exact C14_requested_is_removed _ _ _ _ _ _ _ _ _ _ hr hdn
+  have hd : d ∈ (declare s d).decls := by simp [declare]
+  exact hne (C14_never_still_needed_listing (declare s d) name ver recursive dn s' R hr ⟨name, some ver, true⟩ hmem d hd l hl
+    e he hn hv)
+
+/-- non-vacuity: `lib 1` alone in the stack; `app 1`, whose table requires `lib`, is declared; `remove lib 1` is refused -/
+example :
+    let s0 : State := { decls := [⟨Str.ofString "lib", Str.ofString "1", [], false⟩],
+                        tags := [(Str.ofString "lib", currentTag, Str.ofString "1")], dirs := [(Str.ofString "lib", Str.ofString "1")] }
+    let d : Decl := ⟨Str.ofString "app", Str.ofString "1", [⟨false, false, Str.ofString "lib", none, false, false⟩], false⟩
+    (remove s0 (Str.ofString "lib") (Str.ofString "1") false true false none).1 = .ok ∧
+    (remove (declare s0 d) (Str.ofString "lib") (Str.ofString "1") false true false none).1 = .failed .refused := by
+  decide
+
 /-- `--noCheck`: the command never refuses on the grounds that a product is in use. -/
 theorem C14_noCheck : (removeWith s uses name ver recursive false force dn).1 ≠ .failed .refused := by
   intro h
@@ -176,20 +207,38 @@ theorem C14_terminates (hns : NoUnsetup s.db) (e : Err)
     (h : (remove s name ver recursive check force dn).1 = .failed e) :
     e = .refused ∨ e = .notFound ∨ e = .isSetup ∨ e = .noPermission := by
   unfold remove at h
-  obtain ⟨sb, hsb⟩ := usesInfo_total s.db hns
+  obtain ⟨sb, hsb⟩ := usesInfo_total s.db
   rw [hsb] at h
   rcases removeWith_failed h with ⟨_, ⟨hu, _⟩ | ⟨hu, _⟩⟩ | ⟨sb', _, hc⟩ | ⟨he, _⟩ | ⟨he, _⟩
   rotate_right
   · exact Or.inr (Or.inr (Or.inr he))
   · cases hu
   · cases hu
-  · have hfuel := (collect_fuel s.db hns sb' force dn (name, ver) s.removeFuel name (some ver) recursive []
+  · have hfuel := (collect_fuel s.db sb' force dn (name, ver) s.removeFuel name (some ver) recursive []
       (removeFuel_enough s)).1
     rcases collect_error_kinds s.db hns sb' force dn (name, ver) _ _ _ _ _ _ hc with rfl | rfl | rfl
     · exact Or.inl rfl
     · exact Or.inr (Or.inl rfl)
     · exact absurd hc hfuel
   · exact Or.inr (Or.inr (Or.inl he))
+
+/-- **`remove` never dies in the recursion — on any stack** (tree with the D32 and D33 repairs): whatever the tables
+say (unsetup lines inside dependency cycles, missing table files, unresolved names) and whatever the options, the
+outcome is never the recursion limit: the in-use index is built (`C13_uses_total`), listing the direct
+dependencies of a product returns, and the collection visits every product once. -/
+theorem C14_never_recursion_error :
+    (remove s name ver recursive check force dn).1 ≠ .failed .outOfFuel := by
+  intro h
+  unfold remove at h
+  obtain ⟨sb, hsb⟩ := usesInfo_total s.db
+  rw [hsb] at h
+  rcases removeWith_failed h with ⟨_, ⟨hu, _⟩ | ⟨hu, _⟩⟩ | ⟨sb', _, hc⟩ | ⟨he, _⟩ | ⟨he, _⟩
+  · cases hu
+  · cases hu
+  · exact (collect_fuel s.db sb' force dn (name, ver) s.removeFuel name (some ver) recursive []
+      (removeFuel_enough s)).1 hc
+  · cases he
+  · cases he
 
 /-- **A set-up product is never removed behind the user's back, and never half-way** (tree with the D37 repair):
 unless forced, a successful `remove` removed no product that is set up; the refusal (`C14_refuses`) comes before
@@ -204,6 +253,158 @@ theorem C14_setup_refused (s' : State) (R : List Prod)
     rcases hno with hf | hno
     · exact absurd hf (by simp)
     · exact hno
+
+/-! ## `eups remove -i` -/
+
+/-- **Interactive removal removes exactly what was answered yes to** — whatever is typed, however the loop ends (all
+products asked, `q`, the answers running out, a refusal by `undeclare`): the state is the one before minus the
+declarations, tags and directories of the products reported as removed, these are among the products the command
+collected, in that order, and every other declaration, tag and directory is untouched. -/
+theorem C14_interactive_exact (force : Bool) (top : Prod) : ∀ (ps : List Prod) (s : State) (d : Dflt) (answers : List Ans),
+    (destroyLoopI force top s ps d answers).2.1 = destroy s (destroyLoopI force top s ps d answers).2.2 ∧
+      (destroyLoopI force top s ps d answers).2.2.Sublist ps := by
+  intro ps
+  induction ps with
+  | nil => intro s d answers; simp [destroyLoopI, destroy_nil]
+  | cons p ps ih =>
+    intro s d answers
+    unfold destroyLoopI
+    split
+    · simp [destroy_nil]
+    · simp [destroy_nil]
+    · rename_i d' as' _
+      split
+      · simp [destroy_nil]
+      · obtain ⟨h1, h2⟩ := ih s d' as'
+        exact ⟨h1, List.Sublist.cons _ h2⟩
+    · rename_i d' as' _
+      split
+      · simp [destroy_nil]
+      · split
+        · simp [destroy_nil]
+        · obtain ⟨h1, h2⟩ := ih (destroy s [p]) d' as'
+          simp only
+          refine ⟨?_, List.Sublist.cons_cons _ h2⟩
+          rw [h1, destroy_destroy]
+
+/-- **With `-i` too, every user of a removed product is the requested product** (check on, force off): the in-use
+check precedes the prompts.  Whether the requested product itself goes is then up to the answers — see the witness. -/
+theorem C14_interactive_users_only_requested (sb : SetupBy) (answers : List Ans) :
+    ∀ p ∈ (removeWithI s (.ok sb) name ver recursive true false dn answers).2.2,
+      ∀ u ∈ users sb p.name p.ver, u.name = name ∧ u.ver = ver := by
+  unfold removeWithI
+  simp only [if_true]
+  cases hl : collect s.db (some sb) false dn (name, ver) s.removeFuel name (some ver) recursive [] with
+  | error e => simp
+  | ok r =>
+    obtain ⟨l, sn⟩ := r
+    simp only
+    split
+    · simp
+    · intro p hp u hu
+      have hsub := (C14_interactive_exact false ⟨name, some ver, true⟩ (uniqProds l) s .y answers).2
+      have hp' : p ∈ l := (mem_uniqProds l p).mp (hsub.subset hp)
+      have := collect_checked _ _ _ _ _ _ _ _ _ _ _ hl p hp'
+      simp only [inUse, usedBy, Bool.not_eq_false', List.isEmpty_iff, List.filter_eq_nil_iff] at this
+      have := this u hu
+      simpa using this
+
+/-- the loop on a list that begins with the requested product: whatever it removes, it removes the requested product -/
+theorem destroyLoopI_top_first (force : Bool) (top : Prod) (ps : List Prod) (s : State) (d : Dflt) (answers : List Ans) :
+    (destroyLoopI force top s (top :: ps) d answers).2.2 ≠ [] →
+      top ∈ (destroyLoopI force top s (top :: ps) d answers).2.2 := by
+  unfold destroyLoopI
+  split
+  · simp
+  · simp
+  · simp
+  · split
+    · simp
+    · split
+      · simp
+      · intro _; simp
+
+/-- **Never something still needed, with `-i` too** (tree with the D74 repair; check on, force off): if the command
+removes anything at all, it removes the requested product — and by `C14_interactive_users_only_requested` every user of
+a removed product is that product.  So whatever is answered at the prompts, no product that remains declared is a
+user of a removed one. -/
+theorem C14_interactive_never_still_needed (sb : SetupBy) (answers : List Ans) (hdn : dn ≠ some name) :
+    (removeWithI s (.ok sb) name ver recursive true false dn answers).2.2 ≠ [] →
+      (⟨name, some ver, true⟩ : Prod) ∈ (removeWithI s (.ok sb) name ver recursive true false dn answers).2.2 := by
+  unfold removeWithI
+  simp only [if_true]
+  cases hl : collect s.db (some sb) false dn (name, ver) s.removeFuel name (some ver) recursive [] with
+  | error e => simp
+  | ok r =>
+    obtain ⟨l, sn⟩ := r
+    simp only
+    split
+    · simp
+    · obtain ⟨p, t, hp, rfl⟩ := collect_head _ _ _ _ _ _ _ _ _ _ _ _ hl hdn
+      have : p = ⟨name, some ver, true⟩ := by
+        simp only [Db.find] at hp
+        split at hp <;> simp_all
+      subst this
+      have hu : uniqProds (⟨name, some ver, true⟩ :: t) =
+          ⟨name, some ver, true⟩ :: (uniqProds t).filter (· != ⟨name, some ver, true⟩) := rfl
+      rw [hu]
+      exact destroyLoopI_top_first false _ _ s .y answers
+
+/-- **Negation witness for the pinned tree (D74): with `-i` something still needed could be removed.**  `app 1` requires
+`lib 1`; `eups remove -i -R app 1` with the in-use check on asks about `app 1` first and then about `lib 1` (which passed
+the check: its only user is the requested product); answered `n`, `y`, the pinned command succeeded, `lib 1` was gone and
+`app 1`, which requires it, still declared.  The repaired command stops at the `n` for the requested product. -/
+theorem C14_interactive_still_needed_witness :
+    ∃ (s0 : State) (answers : List Ans) (s' : State) (R : List Prod),
+      removeWithIPinned s0 (usesInfo s0.db s0.db.fuel) (Str.ofString "app") (Str.ofString "1") true true false none answers
+        = (.ok, s', R) ∧
+      R = [⟨Str.ofString "lib", some (Str.ofString "1"), true⟩] ∧
+      s'.decls.map (fun d => (d.name, d.deps.map (·.name))) = [(Str.ofString "app", [Str.ofString "lib"])] ∧
+      removeWithI s0 (usesInfo s0.db s0.db.fuel) (Str.ofString "app") (Str.ofString "1") true true false none answers
+        = (.ok, s0, []) :=
+  ⟨{ decls := [⟨Str.ofString "lib", Str.ofString "1", [], false⟩,
+               ⟨Str.ofString "app", Str.ofString "1", [⟨false, false, Str.ofString "lib", none, false, false⟩], false⟩],
+     tags := [(Str.ofString "lib", currentTag, Str.ofString "1"), (Str.ofString "app", currentTag, Str.ofString "1")],
+     dirs := [(Str.ofString "lib", Str.ofString "1"), (Str.ofString "app", Str.ofString "1")] },
+   [.n, .y], _, _, rfl, by decide, by decide, by decide⟩
+
+/-- a product answered `n` stays: answering `n` to everything removes nothing -/
+theorem C14_interactive_all_no (force : Bool) (top : Prod) : ∀ (ps : List Prod) (s : State) (d : Dflt) (answers : List Ans),
+    d ≠ .bang → answers = List.replicate ps.length Ans.n → destroyLoopI force top s ps d answers = (.ok, s, []) := by
+  intro ps
+  induction ps with
+  | nil => intro s d answers _ _; simp [destroyLoopI]
+  | cons p ps ih =>
+    intro s d answers hd ha
+    subst ha
+    cases d with
+    | bang => exact absurd rfl hd
+    | y =>
+      simp only [List.length_cons, List.replicate_succ, destroyLoopI, ask]
+      split
+      · rfl
+      · exact ih s .n _ (by simp) rfl
+    | n =>
+      simp only [List.length_cons, List.replicate_succ, destroyLoopI, ask]
+      split
+      · rfl
+      · exact ih s .n _ (by simp) rfl
+
+/-- `!` (yes to all) makes the rest of the loop the loop without `-i` -/
+theorem C14_interactive_bang (force : Bool) (top : Prod) : ∀ (ps : List Prod) (s : State) (answers : List Ans),
+    (destroyLoopI force top s ps .bang answers).1 = (destroyLoop force s ps).1 ∧
+      (destroyLoopI force top s ps .bang answers).2.1 = (destroyLoop force s ps).2 := by
+  intro ps
+  induction ps with
+  | nil => intro s answers; simp [destroyLoopI, destroyLoop]
+  | cons p ps ih =>
+    intro s answers
+    simp only [destroyLoopI, ask, destroyLoop]
+    split
+    · simp
+    · split
+      · simp
+      · exact ih (destroy s [p]) answers
 
 /-! ## the `-t TAG` forms of the command line (`RemoveCmd.execute`) -/
 
